@@ -47,6 +47,8 @@
 //     (termination signalled) even when its budget would allow it;
 //   - LinearRequire(f, a) charges a units of memory and a/f units of cpu; the
 //     rounding of a/f is not documented, floor and ceiling are accepted;
+//   - a used amount that no longer fits 64 bits (possible only where there is
+//     no hard limit) must be reported as 2^64-1 (saturation), not wrapped;
 //   - whether a stop requested on an ancestor, or a hard stop, makes a context
 //     "due" is not decided by the sources: Due is then unconstrained (MayDue).
 package refctx
@@ -246,6 +248,20 @@ func (s *Stack) Clone() *Stack {
 }
 
 func (s *Stack) Top() *Ctx { return s.C[len(s.C)-1] }
+
+// Representable: every used amount fits the 64-bit interface.  Beyond that the
+// interface can only show a saturated value; the search does not go on from
+// such states.
+func (s *Stack) Representable() bool {
+	for _, c := range s.C {
+		for r := 0; r < NRes; r++ {
+			if !c.Used[r].IsUint64() {
+				return false
+			}
+		}
+	}
+	return true
+}
 
 func (s *Stack) String() string {
 	parts := make([]string, len(s.C))
@@ -582,7 +598,16 @@ func matchCtx(c *Ctx, o CtxObs) string {
 		return "flags"
 	}
 	for r := 0; r < NRes; r++ {
-		if !(c.Used[r].IsUint64() && c.Used[r].Uint64() == o.Used[r]) {
+		if !c.Used[r].IsUint64() {
+			// More than the interface can express (only possible without a hard
+			// limit): the best a 64-bit counter can do is to stay at its
+			// maximum, which keeps every comparison with a limit right.
+			if o.Used[r] != 1<<64-1 {
+				return "used." + ResName[r]
+			}
+			continue
+		}
+		if c.Used[r].Uint64() != o.Used[r] {
 			return "used." + ResName[r]
 		}
 	}
